@@ -63,6 +63,15 @@ def main():
         EXTRA = ("no category is forced in this round: choose whatever realistic regression you judge MOST LIKELY TO ESCAPE a careful property-based checker that already "
                  "exercises tolerance tricks, dtypes and overflow, caches and call sequences on shared objects, seed kinds, non-finite values, degenerate sizes, label alphabets, memory layouts, "
                  "aliasing of inputs and results, and argument objects of every form.  Earlier rounds already produced these changes, so choose something different: {prev}.")
+    if suffix == "k":
+        EXTRA = ("this round has a FORCED category; pick ONE of the following three and say which in notes.md.  (A) TWO COOPERATING EDITS in different functions (preferably different modules, "
+                 "e.g. a helper in utils.py and its caller): each edit alone must leave every result and every random draw bit-identical to the original (show this in notes.md by testing each half alone), "
+                 "only the combination breaks the property.  (B) a FAILURE PATH: a call that raises (bad argument, rejected combiner, statistic that throws, KeyboardInterrupt-like exception from a user callable "
+                 "in the middle of the repetition loop) leaves something behind -- a half-updated Experiment, a generator advanced or replaced, an argument array not restored, a module/global numpy setting changed "
+                 "(np.seterr, print options, the global np.random state) -- so that a LATER, perfectly valid call violates the property, while any sequence of successful calls behaves exactly as before.  "
+                 "(C) an INTERLEAVING of calls on TWO live objects (two Experiments, two generator instances, two Randomizers, a generator and its deepcopy) in alternation, where the calls on one object disturb "
+                 "the other; each object used alone behaves exactly as before.  No id()-keyed or value-keyed module caches (earlier rounds did that).  Do not use tolerance tricks, dtype overflow, size thresholds / block "
+                 "buffers / fast paths selected by a size constant, or seed-value-dependent behaviour.  Earlier rounds already produced these changes, so choose something different: {prev}.")
     for pid in sys.argv[2:]:
         p = props[pid]; name = pid + suffix
         wt = f'/tmp/wt/{name}'; out = f'/tmp/mut/{name}'
